@@ -326,6 +326,12 @@ fn cfg_names(g: &GlobalData, log: &SessLog) -> Value {
 pub struct Mark {}
 impl Action for Mark {
     fn execute(&self, args: &[Data], g: &GlobalData) -> Result<Data, String> {
+        // an argument that failed to evaluate makes the whole call fail (like any expression error)
+        for a in args {
+            if let Data::Error(e) = a {
+                return Err(e.clone());
+            }
+        }
         CUR.with(|c| {
             if let Some((ctx, log)) = c.borrow().as_ref() {
                 {
